@@ -45,10 +45,13 @@ func genC02(rt *rapid.T) *FmtCase {
 		}
 	}
 	fc := &fmtConfig{}
+	// a fifth of the cases draws payloads over the byte alphabet (partial
+	// markers, invalid UTF-8) instead of valid text
+	bytesAlpha := rapid.IntRange(0, 4).Draw(rt, "bytealpha") == 3
 	if rapid.IntRange(0, 99).Draw(rt, "chaotic") < 25 {
 		// the binding of operands to directives is unknown: rune-for-rune
 		// substitution, integers shared (any of them may feed a '*')
-		vc := &valConfig{two: true, sameLen: true, shareInts: true, maxDepth: 2, reg: reg}
+		vc := &valConfig{two: true, sameLen: true, shareInts: true, maxDepth: 2, reg: reg, bytesAlpha: bytesAlpha}
 		c.HasRaw = true
 		c.Raw = fc.genChaoticFormat(rt)
 		// %p of a Safe()-wrapped slice or map prints an address outside any
@@ -86,7 +89,7 @@ func genC02(rt *rapid.T) *FmtCase {
 				missing = true
 				continue
 			}
-			vc := &valConfig{two: true, sameLen: d.hasWP(), shareInts: string(d.Verb) == "c", maxDepth: 2, reg: reg,
+			vc := &valConfig{two: true, sameLen: d.hasWP(), shareInts: string(d.Verb) == "c", maxDepth: 2, reg: reg, bytesAlpha: bytesAlpha,
 				noWrappers: string(d.Verb) == "p"} // see above
 			c.Args = append(c.Args, vc.genVal(rt, 0, false))
 		}
@@ -107,7 +110,7 @@ func genC02(rt *rapid.T) *FmtCase {
 	for _, a := range c.Args {
 		tagPrivateUse(a, &n)
 	}
-	return c
+	return tame(c)
 }
 
 func TestC02Pair(t *testing.T) {
